@@ -44,16 +44,21 @@ def spell_type(rng, t, as_obj_p=0.3):
     return t
 
 
-def spell_arg(rng, v):
-    """a stored argument value -> spec value (path arguments become path specs)"""
+def spell_arg(rng, v, depth=0):
+    """a stored argument value -> spec value: path arguments become path specs and literal mappings get their
+    path-like keys escaped - exactly where from_spec looks (the argument itself and one level down; not below a
+    mapping that has an escaped key), as Unparse.tla UnparseArgD does"""
     if isinstance(v, PathArg):
         return spell_path(rng, v.rparts, v.dt, v.mt)
     if isinstance(v, list):
-        return [spell_arg(rng, i) for i in v]
+        if depth == 0:
+            return [spell_arg(rng, i, depth + 1) for i in v]
+        return v
     if isinstance(v, dict):
-        if any(isinstance(k, str) and k.startswith("path") for k in v):
-            return {(("\\" + k) if isinstance(k, str) and k.startswith("path") else k): spell_arg(rng, x) for k, x in v.items()}
-        return {k: spell_arg(rng, x) for k, x in v.items()}
+        path_like = any(isinstance(k, str) and k.startswith("path") for k in v)
+        recurse = depth == 0 and not path_like
+        return {(("\\" + k) if isinstance(k, str) and k.startswith("path") else k):
+                (spell_arg(rng, x, depth + 1) if recurse else x) for k, x in v.items()}
     return v
 
 
@@ -72,19 +77,19 @@ def spell_leaf(rng, rec):
     acts, akw = list(rec["actuals"]), dict(rec["akw"])
     types = pre == "dtype" or fn in ("is_instance", "keys_is_instance")
 
-    def conv(v):
+    def conv(v, depth=0):
         if types:
             if isinstance(v, list):
                 return [spell_type(rng, i) for i in v]
             return spell_type(rng, v)
-        return spell_arg(rng, v)
+        return spell_arg(rng, v, depth)
 
     if fn in NONE_FNS:
         val = None
     elif fn in VARPOS:
-        val = [conv(a) for a in acts]
+        val = [conv(a, 1) for a in acts]
     elif fn == "items_contain":
-        val = {k: conv(v) for k, v in akw.items()}
+        val = {k: conv(v, 1) for k, v in akw.items()}
     elif fn in PARAMS:
         ps = PARAMS[fn]
         bound = {}
@@ -92,9 +97,9 @@ def spell_leaf(rng, rec):
             bound[ps[j]] = a
         bound.update(akw)
         if rng.random() < 0.5 and all(p in bound for p in ps[:len(bound)]):
-            val = [conv(bound[p]) for p in ps if p in bound]
+            val = [conv(bound[p], 1) for p in ps if p in bound]
         else:
-            items = [(p, conv(bound[p])) for p in ps if p in bound]
+            items = [(p, conv(bound[p], 1)) for p in ps if p in bound]
             rng.shuffle(items)
             val = dict(items)
     else:
@@ -334,6 +339,10 @@ def spec_leaf_recipe(rng, kinds=None, path_args=False, doc=None):
         return {"datum": datum, "pre": pre, "fn": fn, "actuals": acts, "akw": {}}
     fn = rng.choice(gen.fns_of(datum, pre))
     acts, akw = gen.leaf_args(rng, fn, pre, well_typed=True)
+    if fn in gen.VALUE1 and rng.random() < 0.06:
+        # literal mappings whose keys look like path specs (first key, a later key, nested)
+        acts = [rng.choice([{"path": ["a"]}, {"b": 1, "path": ["a", 0]}, {"mode": "x", "path.length": ["a"], "z": None},
+                            {"a": {"b": 1, "path": [1]}}, [{"b": 2, "path": ["a"]}, 3]])]
     acts = [strkey(a) for a in acts]
     akw = {k: strkey(v) for k, v in akw.items()}
     if fn in ("is_instance", "keys_is_instance"):
